@@ -1051,6 +1051,9 @@ class Pool:
         self._pool = []
         self._poolctrl = {}
         self._on_ready_counters = {}
+        # pid -> exitcode of recently reaped workers: an accept message can
+        # still be in flight when its sender is reaped.
+        self._reaped = {}
         self.putlocks = putlocks
         self._putlock = semaphore or LaxBoundedSemaphore(self._processes)
         for i in range(self._processes):
@@ -1193,6 +1196,22 @@ class Pool:
             if now - lost_time > job._lost_worker_timeout:
                 self.mark_as_worker_lost(job, lost_ret)
 
+        if self._reaped:
+            # a job accepted by a worker that was reaped in an earlier
+            # round (its accept message arrived late) is lost as well.
+            all_pids = [w.pid for w in self._pool]
+            for job in list(self._cache.values()):
+                if not job.ready() and not job._worker_lost:
+                    gone = next(
+                        (pid for pid in job.worker_pids()
+                         if pid in self._reaped and pid not in all_pids),
+                        None
+                    )
+                    if gone:
+                        self.on_job_process_lost(
+                            job, gone, self._reaped[gone] or 0,
+                        )
+
         if shutdown and not len(self._pool):
             raise WorkersJoined()
 
@@ -1220,6 +1239,9 @@ class Pool:
                 del self._pool[i]
                 del self._poolctrl[worker.pid]
                 del self._on_ready_counters[worker.pid]
+                self._reaped[worker.pid] = exitcode
+        while len(self._reaped) > 4 * max(self._processes, 16):
+            del self._reaped[next(iter(self._reaped))]
         if cleaned:
             all_pids = [w.pid for w in self._pool]
             for job in list(self._cache.values()):
@@ -1232,7 +1254,9 @@ class Pool:
                 if acked_by_gone:
                     self.on_job_process_down(job, acked_by_gone)
                     if not job.ready():
-                        exitcode = exitcodes.get(acked_by_gone) or 0
+                        exitcode = exitcodes.get(
+                            acked_by_gone, self._reaped.get(acked_by_gone),
+                        ) or 0
                         proc = cleaned.get(acked_by_gone)
                         if proc and getattr(proc, '_job_terminated', False):
                             job._set_terminated(exitcode)
